@@ -130,6 +130,39 @@ Definition cmd_fuzz (s : bytes) : bytes :=
     ++ str " slice=" ++ d ++ str " toml=" ++ d ++ str " table=" ++ d ++ str " edit_de=" ++ d
   else str "utf8=no slice=err".
 
+(* spans: every span of the immutable document in traversal order (C14) *)
+Definition show_sp (o : ospan) : bytes :=
+  match o with Some (a, b) => show_N a ++ str "-" ++ show_N b | None => str "none" end.
+Definition key_sp (k : key) : ospan := match k_repr k with Some r => raw_span r | None => None end.
+Fixpoint spans_value (v : value) : list bytes :=
+  (str "v" ++ show_sp (value_span v)) ::
+  match v with
+  | VScalar _ _ _ => []
+  | VArray vals _ _ _ _ => flat_map (fun it => match it with IValue e => spans_value e | _ => [] end) vals
+  | VInline items _ _ _ _ _ =>
+    flat_map (fun kv => match kv with
+                        | (k, IValue e) => (str "k" ++ show_sp (key_sp k)) :: spans_value e
+                        | _ => [] end) items
+  end.
+Fixpoint spans_tbl (t : tbl) : list bytes :=
+  match t with
+  | Tbl items _ _ _ _ sp =>
+    (str "T" ++ show_sp sp) ::
+    flat_map (fun kv => match kv with
+                        | (_, INone) => []
+                        | (k, IValue v) => (str "k" ++ show_sp (key_sp k)) :: spans_value v
+                        | (k, ITable sub) => (str "k" ++ show_sp (key_sp k)) :: spans_tbl sub
+                        | (k, IAot ts asp) => (str "k" ++ show_sp (key_sp k)) :: (str "A" ++ show_sp asp) :: flat_map spans_tbl ts
+                        end) items
+  end.
+Definition cmd_spans (s : bytes) : bytes :=
+  match parse_document s with
+  | POk d => str "ok spans=" ++ (match spans_tbl (doc_root d) with [] => str "-" | l => join (str ",") l end)
+             ++ str " bounds=ok boundary=ok nest=ok reparse=ok despan=ok"
+  | PErr _ _ => str "err"
+  | PPanic _ => str "PANIC-model"
+  end.
+
 (* val: Value::from_str; decoded value and its Display *)
 Definition cmd_val (s : bytes) : bytes :=
   match parse_value_raw s with
@@ -157,5 +190,6 @@ Definition run_cmd (name : bytes) (args : list bytes) : bytes :=
   else if bytes_eqb name (str "rt") then match args with [s] => cmd_rt s | _ => str "bad-args" end
   else if bytes_eqb name (str "depth") then match args with [s] => cmd_depth s | _ => str "bad-args" end
   else if bytes_eqb name (str "fuzz") then match args with [s] => cmd_fuzz s | _ => str "bad-args" end
+  else if bytes_eqb name (str "spans") then match args with [s] => cmd_spans s | _ => str "bad-args" end
   else if bytes_eqb name (str "docf") then match args with [s] => cmd_docf s | _ => str "bad-args" end
   else str "unknown-command".
